@@ -48,26 +48,25 @@
 (* gets an event, delivered asynchronously = Observe), faults chosen at     *)
 (* Begin / SlotReached.                                                     *)
 (***************************************************************************)
-EXTENDS Slots, Sequences
+EXTENDS Slots, C47Consts, Sequences
 
-CONSTANTS Proto,        \* "beaconDkg" | "relayEntry" | "tecdsaDkg" | "inactivity" | "approval"
+CONSTANTS Protos,       \* protocols to explore: subset of {"beaconDkg", "relayEntry", "tecdsaDkg",
+                        \*                                   "inactivity", "approval"}
           N,            \* group size
           Controlled,   \* member indexes run by this operator (subset of 1..N)
-          Step,         \* delay step in blocks (from the code)
           Start,        \* start block (beaconDkg, relayEntry) / result submission block (approval)
-          Timeout,      \* relayEntry: relay entry timeout in blocks (from the chain config)
-          EntryMod,     \* relayEntry: entry mod N
+          EntryMods,    \* relayEntry: values of (entry mod N) to explore
           Indexing,     \* relayEntry: "contract" | "asCoded"
-          Submitter,    \* approval: result.SubmitterMemberIndex
+          Submitters,   \* approval: values of result.SubmitterMemberIndex to explore
           Challenge,    \* approval: challenge period (blocks)
           Precedence,   \* approval: submitter precedence period (blocks)
-          MaxBlock,     \* horizon
           Faults,       \* faults the environment may inject (subset of AllFaults)
           Gates         \* values of "the signature set reaches the threshold" to explore
 
 AllFaults == {"none", "precheck", "invalid", "waiter", "submit", "status"}
 
-VARIABLES blk,        \* current block height
+VARIABLES par,        \* [proto, e, submitter]: what is being run (fixed in Init)
+          blk,        \* current block height
           done,       \* the chain already has a result / entry / approval / newer nonce
           winner,     \* who succeeded: 0 = nobody or another operator, i = our member i
           pending,    \* members for which a "somebody succeeded" event is in flight
@@ -78,7 +77,22 @@ VARIABLES blk,        \* current block height
           res,        \* member -> result of the call: "none" | "nil" | "err"
           observed    \* member -> it has seen that somebody else succeeded
 
-vars == <<blk, done, winner, pending, pc, ref, req, nsub, res, observed>>
+vars == <<par, blk, done, winner, pending, pc, ref, req, nsub, res, observed>>
+
+Proto     == par.proto
+EntryMod  == par.e
+Submitter == par.submitter
+
+\* The beacon chain configuration (pkg/beacon/chain Config) for group size N,
+\* as the code hands it out (C47Consts is written by the engine from the code).
+BeaconCfg == CHOOSE cf \in BeaconConfigsDef : cf.n = N
+
+\* delay step of the protocol, from the code
+Step == CASE Proto \in {"beaconDkg", "relayEntry"} -> BeaconCfg.step
+          [] Proto = "tecdsaDkg"  -> TecdsaStepDef
+          [] Proto = "inactivity" -> InactivityStepDef
+          [] Proto = "approval"   -> ApprovalStepDef
+Timeout == BeaconCfg.timeout
 
 Running  == {"waiting", "monitoring"}
 Terminal == {"rejected", "failed", "left", "submitted", "timedout"}
@@ -93,7 +107,19 @@ Slot(i, r) ==
       [] Proto = "approval"   -> ApprovalSlot(i, Submitter, r, Challenge, Precedence, Step)
       [] OTHER                -> LinearSlot(i, r, Step)
 
+\* horizon: a little beyond the last slot
+MaxBlock ==
+    CASE Proto = "relayEntry" -> Start + Timeout + 1
+      [] Proto = "approval"   -> ApprovalStart(Start, Challenge, Precedence) + (N - 1) * Step + 1
+      [] Proto = "beaconDkg"  -> Start + (N - 1) * Step + 2
+      [] OTHER                -> (N - 1) * Step + 3
+
+Pars == UNION { { [proto |-> p, e |-> e, submitter |-> sb] :
+                    e \in (IF p = "relayEntry" THEN EntryMods ELSE {0}),
+                    sb \in (IF p = "approval" THEN Submitters ELSE {0}) } : p \in Protos }
+
 Init ==
+    /\ par \in Pars
     /\ blk \in {0, 1}
     /\ done = FALSE /\ winner = 0 /\ pending = {}
     /\ pc = [i \in Controlled |-> "idle"]
@@ -146,7 +172,7 @@ Begin(i, enough, f) ==
                /\ ref' = [ref EXCEPT ![i] = r]
                /\ req' = [req EXCEPT ![i] = Slot(i, r)]
                /\ UNCHANGED <<res, observed>>
-    /\ UNCHANGED <<blk, done, winner, pending, nsub>>
+    /\ UNCHANGED <<par, blk, done, winner, pending, nsub>>
 
 \* The block counter releases member i's wait: the member submits, unless it
 \* finds its context cancelled.  `f` = fault of the submission call.
@@ -186,7 +212,7 @@ SlotReached(i, f) ==
             [] OTHER ->
                  /\ pc' = [pc EXCEPT ![i] = IF accepted THEN "submitted" ELSE "failed"]
                  /\ res' = [res EXCEPT ![i] = IF accepted THEN "nil" ELSE "err"]
-    /\ UNCHANGED <<blk, ref, req, observed>>
+    /\ UNCHANGED <<par, blk, ref, req, observed>>
 
 \* The event "somebody succeeded" reaches member i (handler run / channel
 \* read / context cancelled): the member leaves without submitting.
@@ -197,7 +223,7 @@ Observe(i) ==
     /\ res' = [res EXCEPT ![i] = "nil"]
     /\ observed' = [observed EXCEPT ![i] = TRUE]
     /\ pending' = pending \ {i}
-    /\ UNCHANGED <<blk, done, winner, ref, req, nsub>>
+    /\ UNCHANGED <<par, blk, done, winner, ref, req, nsub>>
 
 \* relayEntry: the timeout block's waiter fires.
 RelayTimeout(i) ==
@@ -207,14 +233,14 @@ RelayTimeout(i) ==
     /\ pc' = [pc EXCEPT ![i] = "timedout"]
     /\ res' = [res EXCEPT ![i] = "err"]
     /\ pending' = pending \ {i}
-    /\ UNCHANGED <<blk, done, winner, ref, req, nsub, observed>>
+    /\ UNCHANGED <<par, blk, done, winner, ref, req, nsub, observed>>
 
 \* Another operator's member succeeds at the current block.
 Compete ==
     /\ ~done
     /\ done' = TRUE
     /\ pending' = { j \in Controlled : pc[j] \in Running }
-    /\ UNCHANGED <<blk, winner, pc, ref, req, nsub, res, observed>>
+    /\ UNCHANGED <<par, blk, winner, pc, ref, req, nsub, res, observed>>
 
 \* Blocks are mined.  Only heights at which something can change are visited:
 \* the next block and the neighbourhood of every requested slot / the timeout.
@@ -225,7 +251,7 @@ JumpTargets ==
 
 Advance ==
     /\ \E b \in JumpTargets : b > blk /\ b <= MaxBlock /\ blk' = b
-    /\ UNCHANGED <<done, winner, pending, pc, ref, req, nsub, res, observed>>
+    /\ UNCHANGED <<par, done, winner, pending, pc, ref, req, nsub, res, observed>>
 
 \* named top-level disjuncts (coverage)
 DoBegin       == \E i \in Controlled, e \in BOOLEAN, f \in AllFaults : Begin(i, e, f)
@@ -239,7 +265,7 @@ Spec == Init /\ [][Next]_vars
 
 ---------------------------------------------------------------------------
 TypeOK ==
-    /\ blk \in 0..MaxBlock /\ done \in BOOLEAN /\ winner \in {0} \cup Controlled
+    /\ par \in Pars /\ blk \in 0..MaxBlock /\ done \in BOOLEAN /\ winner \in {0} \cup Controlled
     /\ pending \subseteq Controlled
     /\ \A i \in Controlled :
           /\ pc[i] \in {"idle"} \cup Running \cup Terminal
